@@ -27,6 +27,12 @@ pub struct Body {
     pub a: usize,
     /// n for biclique, unused otherwise
     pub b: usize,
+    /// an earlier call of the same generator with these other (admissible) parameters is made first and its
+    /// result dropped: a generator is a function of its arguments, whatever the process did before (state
+    /// kept in a static or thread-local between calls is what this reaches)
+    /// (one entry per CPU count at which the generator is called, used cyclically)
+    #[serde(default, skip_serializing_if = "Vec::is_empty")]
+    pub pre: Vec<(usize, usize)>,
 }
 
 pub const GENS: [&str; 7] = ["empty", "complete", "circuit", "cycle", "path", "star", "wheel"];
@@ -43,7 +49,7 @@ pub fn grid(tier: Tier) -> Vec<Body> {
     let mut g = Vec::new();
     for gen in GENS {
         for order in 0..=max_order(tier) {
-            g.push(Body { gen: gen.to_string(), a: order, b: 0 });
+            g.push(Body { gen: gen.to_string(), a: order, b: 0, pre: Vec::new() });
         }
     }
     // the threaded generator gets eight more cells per order: each cell draws its own CPU counts and
@@ -52,7 +58,7 @@ pub fn grid(tier: Tier) -> Vec<Body> {
     // generators whose output is linear in the order
     for gen in ["empty", "circuit", "cycle", "path", "star", "wheel"] {
         for order in [191, 192, 193, 255, 256, 257, 320, 384, 448, 511, 512, 513, 576, 640, 704, 1000, 1023, 1024, 1025] {
-            g.push(Body { gen: gen.to_string(), a: order, b: 0 });
+            g.push(Body { gen: gen.to_string(), a: order, b: 0, pre: Vec::new() });
         }
     }
     let complete_max = match tier {
@@ -61,7 +67,7 @@ pub fn grid(tier: Tier) -> Vec<Body> {
     };
     for _ in 0..8 {
         for order in 1..=complete_max {
-            g.push(Body { gen: "complete".to_string(), a: order, b: 0 });
+            g.push(Body { gen: "complete".to_string(), a: order, b: 0, pre: Vec::new() });
         }
     }
     // every (m, n) with m + n <= 100 (quick) / 160 (thorough): runs longer than one 64-bit word of the
@@ -72,7 +78,7 @@ pub fn grid(tier: Tier) -> Vec<Body> {
     };
     for m in 0..=lim {
         for n in 0..=(lim - m) {
-            g.push(Body { gen: "biclique".into(), a: m, b: n });
+            g.push(Body { gen: "biclique".into(), a: m, b: n, pre: Vec::new() });
         }
     }
     // far above the enumerated range, like the other generators: totals on and around word multiples and
@@ -83,12 +89,12 @@ pub fn grid(tier: Tier) -> Vec<Body> {
         ms.dedup();
         for m in ms {
             if m >= 1 && m < total {
-                g.push(Body { gen: "biclique".into(), a: m, b: total - m });
+                g.push(Body { gen: "biclique".into(), a: m, b: total - m, pre: Vec::new() });
             }
         }
     }
     for gen in ["trivial", "claw", "utility"] {
-        g.push(Body { gen: gen.into(), a: 0, b: 0 });
+        g.push(Body { gen: gen.into(), a: 0, b: 0, pre: Vec::new() });
     }
     g
 }
@@ -139,12 +145,18 @@ where
     }
 }
 
-fn check_rep<R>(b: &Body, st: &mut Stats, vs: &mut Vec<Violation>)
+fn check_rep<R>(b: &Body, k: usize, st: &mut Stats, vs: &mut Vec<Violation>)
 where
     R: Rep + Empty + Complete + Circuit + Cycle + Path + Star + Wheel + Biclique,
 {
     st.sequential_checks += 1;
     let name = format!("{}::{}", R::NAME, b.gen);
+    if !b.pre.is_empty() {
+        let (pa, pb) = b.pre[k % b.pre.len()];
+        let earlier = Body { gen: b.gen.clone(), a: pa, b: pb, pre: Vec::new() };
+        let _ = guard(|| call::<R>(&earlier).obs());
+        st.bump("probe/earlier_call_with_other_parameters");
+    }
     let got = guard(|| call::<R>(b).obs());
     if admissible(b) {
         let exp = closed_form(b);
@@ -208,6 +220,32 @@ impl Lane for C14 {
                 confs.push(Conf { cpu, sched: draw_sched(rng, 1), trace: None });
             }
         }
+        let mut body = body;
+        // VERIF_C14_NO_EARLIER_CALL=1: self-test switch (A/B runs; exercises the history replay of the driver)
+        let no_pre = std::env::var("VERIF_C14_NO_EARLIER_CALL").is_ok_and(|v| v == "1");
+        if body.gen != "complete" && admissible(&body) && body.a + body.b <= 300 && !no_pre {
+            let floor = if body.gen == "wheel" { 4 } else { 1 };
+            let a = body.a;
+            for _ in 0..4 {
+                if rng.chance(1, 4) {
+                    continue;
+                }
+                let pa = match rng.below(7) {
+                    0 => a.saturating_sub(1),
+                    1 => a + 1,
+                    2 => a.saturating_sub(2),
+                    3 => a + 2,
+                    4 => a / 2,
+                    5 => (2 * a).min(300),
+                    _ => rng.range(1, a + 8),
+                }
+                .max(floor);
+                let pb = if body.gen == "biclique" { if rng.chance(1, 2) { body.b } else { rng.range(1, body.b + 3) } } else { 0 };
+                if (pa, pb) != (body.a, body.b) {
+                    body.pre.push((pa, pb));
+                }
+            }
+        }
         Scenario { body, confs }
     }
 
@@ -231,18 +269,18 @@ impl Lane for C14 {
             }
         }
         let mut seen = Vec::new();
-        for conf in &sc.confs {
+        for (k, conf) in sc.confs.iter().enumerate() {
             if seen.contains(&conf.cpu) || (b.gen == "complete" && !seen.is_empty()) {
                 continue;
             }
             seen.push(conf.cpu);
             with_cpu(conf.cpu, || {
                 if b.gen != "complete" {
-                    check_rep::<AdjacencyList>(b, st, &mut vs);
+                    check_rep::<AdjacencyList>(b, k, st, &mut vs);
                 }
-                check_rep::<AdjacencyMap>(b, st, &mut vs);
-                check_rep::<AdjacencyMatrix>(b, st, &mut vs);
-                check_rep::<EdgeList>(b, st, &mut vs);
+                check_rep::<AdjacencyMap>(b, k, st, &mut vs);
+                check_rep::<AdjacencyMatrix>(b, k, st, &mut vs);
+                check_rep::<EdgeList>(b, k, st, &mut vs);
             });
             if !vs.is_empty() {
                 break;
@@ -266,16 +304,24 @@ impl Lane for C14 {
 
     fn shrink(body: &Body) -> Vec<Body> {
         let mut out = Vec::new();
+        if !body.pre.is_empty() {
+            out.push(Body { pre: Vec::new(), ..body.clone() });
+            if body.pre.len() > 1 {
+                for k in 0..body.pre.len() {
+                    out.push(Body { pre: vec![body.pre[k]], ..body.clone() });
+                }
+            }
+        }
         for a in [body.a / 2, body.a.saturating_sub(1)] {
             if a < body.a {
-                let c = Body { gen: body.gen.clone(), a, b: body.b };
+                let c = Body { gen: body.gen.clone(), a, b: body.b, pre: body.pre.clone() };
                 if admissible(&c) == admissible(body) {
                     out.push(c);
                 }
             }
         }
         if body.b > 1 {
-            out.push(Body { gen: body.gen.clone(), a: body.a, b: body.b - 1 });
+            out.push(Body { gen: body.gen.clone(), a: body.a, b: body.b - 1, pre: body.pre.clone() });
         }
         out
     }
